@@ -224,6 +224,10 @@ func (r Rule) Apply(facts *FactSet, newFacts *FactSet, syms *SymbolTable) error 
 			}
 			v, ok := res.MatchedVariables[k]
 			if !ok {
+				// let the goroutine started by combine finish: it blocks
+				// forever on its next send once nobody receives
+				for range combinations {
+				}
 				return InvalidRuleError{r, k}
 			}
 
